@@ -515,13 +515,15 @@ def signature(law, row, S):
             return False
         if lost and all(i not in c["b"] and below_gone(i) for i in lost) and o["m2"] == sorted(set(c["m"]) - gone - set(lost)):
             return "pending-remain:unselected-added-entry-below-committed-missing-directory-is-unversioned"
-    if law == "tree" and o.get("unreadable"):
+    if law == "tree":
         # an unselected (excluded) entry keeps its basis parent although that parent is committed as a non-directory
+        # (2a: the CHK inventory cannot even be read back; pack-0.92: a file with a child)
         def nondir(p):
             return p in S and (p not in c["w"] or p in c["m"] or c["w"][p]["kind"] != "directory")
         if any(i not in S and e["parent"] != ROOT and nondir(e["parent"]) for i, e in c["b"].items()):
             return "committed-inventory-inconsistent:excluded-child-of-directory-committed-as-non-directory"
-        return "committed-inventory-inconsistent:%s" % shape(row)
+        if o.get("unreadable"):
+            return "committed-inventory-inconsistent:%s" % shape(row)
     return "law:%s:%s" % (law, shape(row))
 
 
@@ -670,5 +672,7 @@ def _selected_py(row):
     excl = ["/".join(p) for p in c["excl"]]
     S = set(ids) if c["all"] else {i for i in ids if any(inside(sel, p) for p in paths(i))}
     S |= {j for t in (b, w) for j in t for i in S if i in anc(t, j)}
-    S |= {p for i in list(S) if i in w and pending(i) for p in anc(w, i) if pending(p)}
+    up = {p for i in list(S) if i in w and pending(i) for p in anc(w, i) if pending(p)} - S
+    S |= up
+    S |= {j for p in up if p in b and (p in m or w[p]["kind"] != "directory") for j in b if p in anc(b, j)}
     return sorted(S - {i for i in ids if any(inside(excl, p) for p in paths(i))})
